@@ -112,7 +112,9 @@ def status_own(ctx: Ctx, rule="R-C20-STATUS-OWN") -> None:
 def isolated(ctx: Ctx, rule="R-C20-ISOLATED") -> None:
     c = ctx.prog.cls(PROTO)
     init = ctx.func(f"{PROTO}.__init__")
+    optional = C._none_default_params(init)  # optional collaborators (a clock for the Date header ...) default to None: nothing shared is handed in by the server
     params = [p.arg for p in init.params()][1:]
+    params = [p_ for p_ in params if p_ not in optional]
     ctx.check(set(params) <= {"endpoint_name", "status"}, rule, init, "protocol constructor takes only value copies", f"parameters {params}",
               f"_HttpServerProtocol is constructed with {params}: a reference to the server/runner/broker inside the per-connection object lets request handling reach shared state",
               instance="protocol parameters")
@@ -126,6 +128,8 @@ def isolated(ctx: Ctx, rule="R-C20-ISOLATED") -> None:
                 for t in tgts:
                     if isinstance(t, ast.Attribute):
                         allowed = {"transport"} | ({"endpoint_name", "status"} if m.name == "__init__" else set())
+                        if m.name == "__init__" and isinstance(getattr(n, "value", None), ast.Name) and n.value.id in optional:
+                            allowed |= {t.attr}  # an optional collaborator kept on the per-connection object
                         ctx.check(dotted(t.value) == "self" and t.attr in allowed, rule, m, f"store {unparse(t)} in {m.short()}", "only its own fields",
                                   f"{m.short()} stores to {unparse(t)}: request bytes can change state that outlives the request", node=n, instance=f"{m.name}: store {t.attr}")
         for cnode in ast.walk(m.node):
